@@ -41,6 +41,26 @@ Words(s, cur) == IF s = <<>> THEN (IF cur = <<>> THEN <<>> ELSE <<cur>>)
                  ELSE IF IsAsciiSpace(Head(s)) THEN (IF cur = <<>> THEN <<>> ELSE <<cur>>) \o Words(Tail(s), <<>>)
                  ELSE Words(Tail(s), Append(cur, Head(s)))
 
+\* ---- the same three steps without recursion (linear in the length; the trace judge meets names of 4000+
+\* characters).  MCFilename checks FastAgrees: they equal the recursive transcription on every bounded input.
+AsciiIgnoreF(s) == SelectSeq(s, IsAscii)
+KeepOnlyF(s) == SelectSeq(s, Kept)
+MapSepF(s) == [i \in 1..Len(s) |-> IF IsSeparator(s[i]) THEN 32 ELSE s[i]]
+NotDropped(c) == c >= 0
+\* index walks (no copying): last / first position whose element is not in the set Skip, 0 / Len+1 if none
+RECURSIVE LastNotIn(_, _, _)
+LastNotIn(s, Skip, i) == IF i = 0 THEN 0 ELSE IF s[i] \notin Skip THEN i ELSE LastNotIn(s, Skip, i - 1)
+RECURSIVE FirstNotIn(_, _, _)
+FirstNotIn(s, Skip, i) == IF i > Len(s) THEN i ELSE IF s[i] \notin Skip THEN i ELSE FirstNotIn(s, Skip, i + 1)
+AsciiSpaces == (9..13) \cup (28..32)
+\* "_".join(s.split()): a whitespace run becomes one underscore iff text stands on both sides of it
+UnderscoreJoinF(s) ==
+  LET n == Len(s)
+      last == LastNotIn(s, AsciiSpaces, n)
+      mark == [i \in 1..n |-> IF ~IsAsciiSpace(s[i]) THEN s[i]
+                               ELSE IF i > 1 /\ ~IsAsciiSpace(s[i - 1]) /\ i < last THEN USCORE ELSE 0 - 1]
+  IN SelectSeq(mark, NotDropped)
+
 StripSet == {FDOT, USCORE}
 RECURSIVE LStrip(_)
 LStrip(s) == IF s # <<>> /\ Head(s) \in StripSet THEN LStrip(Tail(s)) ELSE s
@@ -54,15 +74,23 @@ SanVariants == {"code", "nostrip", "nosep", "nosplit", "rstriponly", "trunc3", "
 \* does not.  (Truncating BEFORE the strip would be fine.)
 TruncLen(variant) == IF variant = "trunc3" THEN 3 ELSE IF variant = "trunc4" THEN 4 ELSE 0
 
+\* strip("._") by positions
+StripF(s) ==
+  LET hi == LastNotIn(s, StripSet, Len(s))
+  IN IF hi = 0 THEN <<>> ELSE SubSeq(s, FirstNotIn(s, StripSet, 1), hi)
+
+\* the recursive transcription of the code as pinned (reference for FastAgrees)
+SanRec(nfkd) == RStrip(LStrip(KeepOnly(JoinWith(Words(MapSep(AsciiIgnore(nfkd)), <<>>), USCORE))))
+
 \* the pipeline on the NFKD text
 SanV(variant, nfkd) ==
-  LET a == AsciiIgnore(nfkd)
-      b == IF variant = "nosep" THEN a ELSE MapSep(a)
-      c == IF variant = "nosplit" THEN b ELSE JoinWith(Words(b, <<>>), USCORE)
-      d == IF variant = "nosep" \/ variant = "nosplit" THEN c ELSE KeepOnly(c)
+  LET a == AsciiIgnoreF(nfkd)
+      b == IF variant = "nosep" THEN a ELSE MapSepF(a)
+      c == IF variant = "nosplit" THEN b ELSE UnderscoreJoinF(b)
+      d == IF variant = "nosep" \/ variant = "nosplit" THEN c ELSE KeepOnlyF(c)
   IN IF variant = "nostrip" THEN d
      ELSE IF variant = "rstriponly" THEN RStrip(d)
-     ELSE IF TruncLen(variant) > 0 THEN Take(RStrip(LStrip(d)), TruncLen(variant))
-     ELSE RStrip(LStrip(d))
+     ELSE IF TruncLen(variant) > 0 THEN Take(StripF(d), TruncLen(variant))
+     ELSE StripF(d)
 San(nfkd) == SanV("code", nfkd)
 =============================================================================
